@@ -320,7 +320,7 @@ var def = pbt.Def[Case]{Name: "responder-mirror", Gen: gen, Run: judge}
 
 func TestProp(t *testing.T) {
 	outerT = t
-	pbt.Check(t, run, def, 15000, 2000000)
+	pbt.Check(t, run, def, 15000, 1000000)
 }
 
 func TestReplay(t *testing.T) {
